@@ -13,7 +13,8 @@ def cfg : Cfg :=
     parentsSeen := Gen.C05.parentsSeen
     childrenGuarded := Gen.C05.childrenGuarded
     ppidGuarded := Gen.C05.ppidGuarded
-    lowestStop := Gen.C05.lowestStop }
+    lowestStop := Gen.C05.lowestStop
+    goneRaises := Gen.C05.goneRaises }
 
 /-- how the two stat readers cut the line, as extracted from the current source -/
 def scfg : StatCfg :=
